@@ -32,6 +32,7 @@ CONSTANTS Docs,       \* document type -> sequence of field paths (a path is a s
           MaxDev,     \* deviating fields per document
           Alphabets,  \* token family -> number of tokens in its alphabet
           MaxTok,     \* tokens per text
+          TokCap,     \* token family -> its own cap on the number of tokens (the smaller of the two bounds applies)
           Recs,       \* number of records in a store
           Damages,    \* sequence of damage kinds; the first one is "intact"
           Drivers     \* set of storage drivers
@@ -70,6 +71,7 @@ Deviate ==
 AddToken ==
   /\ mode = "tokens"
   /\ Len(toks) < MaxTok
+  /\ Len(toks) < TokCap[fam]
   /\ \E t \in 1..Alphabets[fam] : toks' = Append(toks, t)
   /\ UNCHANGED <<mode, doc, dev, fam, drv, store>>
 
@@ -84,7 +86,8 @@ Spec == Init /\ [][Next]_vars
 
 \* sanity of the enumeration itself
 Inv_Compatible == \A i, j \in DOMAIN dev : i # j => Compatible(Docs[doc][i], Docs[doc][j])
-Inv_Bounds == Cardinality(DOMAIN dev) <= MaxDev /\ Len(toks) <= MaxTok /\ Len(store) <= Recs
+Inv_Bounds == /\ Cardinality(DOMAIN dev) <= MaxDev /\ Len(toks) <= MaxTok /\ Len(store) <= Recs
+              /\ (mode = "tokens" => Len(toks) <= TokCap[fam])
 
 (* ----- export ------------------------------------------------------------------ *)
 
